@@ -55,13 +55,13 @@ CHECKS = {
         note="Trusted: z3, CPython, forksym; the vendored posixpath and the virtual tree are validated on every path by re-running the unshimmed "
              "code on real files in a temp directory. One fixed tree with '..name', an index-less directory, a sibling whose name extends the "
              "directory's, '<dir>.html', a unix socket and a symbolic link to an empty directory outside; directory given absolute or relative with a "
-             "later chdir; Pages also mounted below a prefix (symbolic jobs with a URL stand-in, plus 40 concrete mount/path recipes on the real URL class). Paths: <=5/<=7 free chars plus '/../'+<=6, <=3+'/index.html', <=4+'.html'. "
+             "later chdir; Pages also mounted below a prefix (symbolic jobs with a URL stand-in, plus 40 concrete mount/path recipes on the real URL class); handle_404 configured. WSGI paths are given in their PEP 3333 presentation (UTF-8 bytes shown as latin-1; ASCII only beyond 2 free characters on WSGI). Paths: <=5/<=7 free chars plus '/../'+<=6, <=3+'/index.html', <=4+'.html'. "
              "'<file>/' may be served or 404 (the statement allows both)."),
     "C08": dict(
         technique="z3 regex-language lemmas on the live convertor patterns; fork-on-branch symbolic execution of the real Route/Router over fully symbolic paths (ReShim) against a first-match oracle built from the statement's type languages; decided arithmetic for int/date/decimal conversion and round trip",
         design_ref="DESIGN.md §4 C08",
         note="Trusted: z3 (sequence/regex theory for the lemmas and short-path cross-check), CPython, forksym/ReShim, the text/integer models of "
-             "Decimal, date and UUID (each path's model is re-run on the unshimmed code). Route tables are recipes (also mounted, nested, and serving the same path twice); paths <=8/<=9 "
+             "Decimal, date and UUID (each path's model is re-run on the unshimmed code). Route tables are recipes (also mounted, nested, serving the same path twice, environ without PATH_INFO); paths <=8/<=9 "
              "symbolic chars (<= U+2FFFF) plus a 10-char date/decimal segment; int <=6/<=7 digits; decimals <=4+4 digits (plus 30-digit shapes). A date placeholder is taken to "
              "stand only for text that denotes a calendar date."),
     "C09": dict(
